@@ -456,6 +456,11 @@ impl BlockFilterRpc for BlockFilterRpcImpl {
         let cells = iter
             .take_while(|(key, _value)| key.starts_with(&prefix))
             .filter_map(|(key, value)| {
+                // The args of the stored script is shorter than the searched args: the key
+                // starts with the prefix only because of the bytes of its block number.
+                if key.len() < prefix.len() + CELL_KEY_SUFFIX_LEN {
+                    return None;
+                }
                 let tx_hash = packed::Byte32::from_slice(&value).expect("stored tx hash");
                 let output_index = u32::from_be_bytes(
                     key[key.len() - 4..]
@@ -629,6 +634,11 @@ impl BlockFilterRpc for BlockFilterRpcImpl {
             let mut last_key = Vec::new();
 
             for (key, value) in iter.take_while(|(key, _value)| key.starts_with(&prefix)) {
+                // The args of the stored script is shorter than the searched args: the key
+                // starts with the prefix only because of the bytes of its block number.
+                if key.len() < prefix.len() + TX_KEY_SUFFIX_LEN {
+                    continue;
+                }
                 let tx_hash = packed::Byte32::from_slice(&value).expect("stored tx hash");
                 if tx_with_cells.len() == limit
                     && tx_with_cells.last_mut().unwrap().transaction.hash != tx_hash.unpack()
@@ -743,6 +753,11 @@ impl BlockFilterRpc for BlockFilterRpcImpl {
             let txs = iter
                 .take_while(|(key, _value)| key.starts_with(&prefix))
                 .filter_map(|(key, value)| {
+                    // The args of the stored script is shorter than the searched args: the key
+                    // starts with the prefix only because of the bytes of its block number.
+                    if key.len() < prefix.len() + TX_KEY_SUFFIX_LEN {
+                        return None;
+                    }
                     let tx_hash = packed::Byte32::from_slice(&value).expect("stored tx hash");
                     let tx = packed::Transaction::from_slice(
                         &snapshot
@@ -863,6 +878,11 @@ impl BlockFilterRpc for BlockFilterRpcImpl {
         let capacity: u64 = iter
             .take_while(|(key, _value)| key.starts_with(&prefix))
             .filter_map(|(key, value)| {
+                // The args of the stored script is shorter than the searched args: the key
+                // starts with the prefix only because of the bytes of its block number.
+                if key.len() < prefix.len() + CELL_KEY_SUFFIX_LEN {
+                    return None;
+                }
                 let tx_hash = packed::Byte32::from_slice(&value).expect("stored tx hash");
                 let output_index = u32::from_be_bytes(
                     key[key.len() - 4..]
@@ -1067,6 +1087,10 @@ impl NetRpc for NetRpcImpl {
 }
 
 const MAX_PREFIX_SEARCH_SIZE: usize = u16::max_value() as usize;
+// The length of the part after the script in the cell keys: block number, tx index and output index.
+const CELL_KEY_SUFFIX_LEN: usize = 8 + 4 + 4;
+// The length of the part after the script in the tx keys: block number, tx index, io index and io type.
+const TX_KEY_SUFFIX_LEN: usize = 8 + 4 + 4 + 1;
 
 // a helper fn to build query options from search paramters, returns prefix, from_key, direction and skip offset
 fn build_query_options(
